@@ -376,11 +376,11 @@ func (w *world) judge(res *simkit.RunResult, panics []string, sendPanics int) {
 		}
 
 		// (2) own response
-		want := echoValue(c.Tag, c.Addr, c.Fwd)
+		want := echoValue(c.wireTag(), c.Addr, c.Fwd)
 		if class == "ok" && c.Val != want {
 			sig := "garbage"
 			if i := strings.IndexByte(c.Val, '|'); i > 0 {
-				if c.Val[:i] != c.Tag {
+				if c.Val[:i] != c.wireTag() {
 					sig = "other-call"
 				} else {
 					sig = "wrong-route"
